@@ -724,10 +724,18 @@ def padding_table(ck, F, en):
     if not {"width", "align", "truncateMode", "fill"} <= set(q):
         return False
 
-    def ref(value, align, trunc, width, fill):
+    def ref(value, align, trunc, width, fill, tidy=False):
         if width <= 0:
             return value
-        cut = (lambda v: v[len(v) - width:]) if align == "Right" else (lambda v: v[:width])
+
+        def cut(v):
+            v = v[len(v) - width:] if align == "Right" else v[:width]
+            # tidy: a cut that falls inside a surrogate pair may also drop the half that is left (half a character is no character of the value)
+            if tidy and v and align == "Right" and 0xDC00 <= ord(v[0]) <= 0xDFFF:
+                v = v[1:]
+            elif tidy and v and align != "Right" and 0xD800 <= ord(v[-1]) <= 0xDBFF:
+                v = v[:-1]
+            return v
         if trunc == "TruncateOnly":
             return value if len(value) <= width else cut(value)
         if align == "None":
@@ -741,7 +749,9 @@ def padding_table(ck, F, en):
         if align == "Right":
             return fill * pad + v
         return fill * (pad // 2) + v + fill * (pad - pad // 2)
-    values = ("", "a", "ab", "abc", "abcd", "abcde", "abcdefghij")
+    # values are sequences of UTF-16 code units, as QString has them: an astral character is two units (a surrogate pair), and the documented cut
+    # ("keep the first / last N characters") counts units - a complete character of the value may never be damaged by looking at its neighbours
+    values = ("", "a", "ab", "abc", "abcd", "abcde", "abcdefghij", "ab\ud83d\ude00", "a\ud83d\ude00bc", "\ud83d\ude00abc", "ab\ud83d\ude00cd\ud83d\ude01e")
     wrong, unknown, n = [], None, 0
     for align in ("None", "Left", "Right", "Center"):
         for trunc in ("None", "Truncate", "TruncateOnly"):
@@ -756,7 +766,7 @@ def padding_table(ck, F, en):
                         break
                     n += 1
                     want = ref(value, align, trunc, width, ".")
-                    if got != want:
+                    if got != want and got != ref(value, align, trunc, width, ".", tidy=True):
                         wrong.append("align=%s truncate=%s width=%d value=%r -> %r (documented %r)" % (align, trunc, width, value, got, want))
                 if unknown:
                     break
